@@ -222,7 +222,7 @@ def check_config_route(case: dict):
                     g, sol = L.g_of(m), [list(q) for q in L.as_cells(m.solution)]
                     _compare("C17:collection:item", arr[:, i], g, sol, opts)
     except ValueError as e:
-        if any(s_ in str(e) for s_ in ("no valid start or end positions", "larger sample than population", "high <= 0")):
+        if any(s_ in str(e) for s_ in core.DOCUMENTED_GENERATION_ERRORS) or core._raised_while_drawing_endpoints(e):
             raise core.Discard() from e
         raise
     return {"nt": case["n_mazes"] >= 2, "labels": ["route:" + case["route"], f"opts:{int(opts[0])}{int(opts[1])}{int(opts[2])}"]}
